@@ -347,6 +347,14 @@ func (i *interpreter) runPath(fn *ssa.Function, job *Job) (kind, msg string) {
 		switch p := p.(type) {
 		case pathEnd:
 			kind, msg = p.kind, p.msg
+			if p.kind == "deadlock" || p.kind == "crash" {
+				sched := ""
+				if i.sched != nil {
+					sched = fmt.Sprint(i.sched.log)
+				}
+				i.escaped(ex, p.kind+": "+p.msg+" schedule="+sched)
+				kind = "violation"
+			}
 		case unsupportedErr:
 			kind, msg = "unsupported", p.msg
 			if os.Getenv("GOSYM_DEBUG") != "" {
